@@ -31,7 +31,7 @@ def _step_f(params):
     c, k = params["c"], params["k"]
 
     def f(x):
-        return sum(int(math.floor(abs(xi - ci) * k)) for xi, ci in zip(x, c))
+        return sum(min(int(math.floor(min(abs(xi - ci), 1e6) * k)), 1000) for xi, ci in zip(x, c))      # capped: bounded above
     return f
 
 
